@@ -5,7 +5,8 @@ ID = "C01"
 LEAN_TARGETS = ["Rsp.Props.C01", "Rsp.Props.C11"]
 THEOREMS = ["Rsp.Props.C01.rmOne_cases", "Rsp.Props.C01.rewriteRm_frame", "Rsp.Props.C01.rewriteRm_sublist", "Rsp.Props.C01.rewriteMod_shape",
             "Rsp.Props.C01.rewriteSup_appends", "Rsp.Props.C01.dorewrite_frame", "Rsp.Props.C01.ensureMsgAuthFront_frame", "Rsp.Props.C01.addttlattr_appends",
-            "Rsp.Props.C11.sendrq_never_displaces", "Rsp.Props.C11.internalSendrq_places"]
+            "Rsp.Props.C11.sendrq_never_displaces", "Rsp.Props.C11.internalSendrq_places",
+            "Rsp.Props.C01.addttlattr_frame", "Rsp.Props.C01.chapComplete_spec", "Rsp.Props.C01.outAttrs_frame", "Rsp.Props.C01.outAttrs_msgauth_first", "Rsp.Props.C01.forward_message"]
 RULE = ("(config, packet) pairs through the real getmainconfig + radsrv with fake transports: attribute lists over all types incl. Vendor-Specific with well-formed, "
         "ill-formed and trailing-octet payloads, value lengths biased to 0,1,2,4,6,16,17,128,247,253, all rule forms (remove/whitelist, modify, supplement, add; plain and "
         "vendor) on client rewriteIn and server rewriteOut, User-Name rewrite, CHAP, User-Password, TTL; compared on the bytes placed in the slot, the chosen server and "
@@ -15,7 +16,7 @@ ASSUMPTIONS = ["POSIX regexec is a parameter (answers recorded from the real cal
 LEVEL_TEXT = ("Lean 4 theorems for every attribute list, rewrite block and regex behaviour: a successful rewrite block passes every attribute of a type it does not name "
               "byte-identical, once and in order (dorewrite_frame); removal never reorders or duplicates (rewriteRm_sublist); modification is one-to-one with types "
               "preserved (rewriteMod_shape); supplement/add only append; ensuremsgauthfront touches only type 80 (and reserved type 0); TTL insertion appends at most one "
-              "attribute; queueing places the request in exactly one free slot and never displaces another (C11 theorems). Tied to the code by differential histories "
+              "attribute; the stages compose in the model of radsrv as stated (forward_message: ONE sendrq call with the client's message under a new authenticator and attributes = CHAP completion, rewriteOut, Message-Authenticator placement and AddTTL; chapComplete_spec; outAttrs_frame; outAttrs_msgauth_first); queueing places the request in exactly one free slot and never displaces another (C11 theorems). Tied to the code by differential histories "
               "comparing the forwarded bytes; the monitor checks the frame property on the implementation's forwarded packets.")
 LEVEL_NOTE = "Trusted: Lean kernel + std axioms, harness, generators. Modelled: dorewrite and its stages, radsrv pipeline, sendrq. regexec is an oracle."
 TECHNIQUE = "Lean 4 proof (stage-wise frame lemmas by induction over attribute lists) + differential histories comparing forwarded bytes"
